@@ -1,11 +1,11 @@
 package main
 
 import (
-	"sort"
 	"fmt"
 	"go/constant"
 	"go/token"
 	"go/types"
+	"sort"
 
 	"golang.org/x/tools/go/ssa"
 )
